@@ -35,6 +35,17 @@ def strategy(tier):
     return _case(tier)
 
 
+def enumerate_cases(tier):
+    """Every accepted cell once: non-dyadic dt, a horizon that ends off the grid, restarts incl. the last grid point."""
+    for rnd, spec, combo in solve.enumerate_cells(7003, all_levy=False):
+        dt = rnd.choice([0.1, 0.3, 0.05, 1 / 3])
+        n = rnd.randint(4, 9)
+        t0 = rnd.choice([0.0, 0.1, -0.5])
+        yield {"spec": spec, "combo": combo, "time": {"t0": t0, "t1": t0 + (n + 0.4) * dt, "dt": dt, "tdtype": "float64"},
+               "cuts": [rnd.randrange(10 ** 6), n - 1, rnd.randrange(10 ** 6)], "extra_out": [0.45],
+               "entropy": rnd.randrange(2 ** 31 - 2), "cache_size": rnd.choice([45, 1, None])}
+
+
 def run_case(case):
     import torchsde
     spec, combo, tm = case["spec"], case["combo"], case["time"]
